@@ -41,8 +41,9 @@ def plan(tier, seed):
     else:
         lengths = list(range(1, 130)) + [888, 889, 890, 895, 896, 897, 1777, 1778, 1779, 4096, 10000, 20000]
         loss_pairs = [(100, "5"), (50, "3-5-2"), (23, "2"), (200, "10-4"), (36, "7"), (64, "127"), (1000, "127-1-64"),
-                      (900, "127"), (15, "1"), (301, "3-5-2"), (77, "10-4")]
-        multi = 400
+                      (900, "127"), (15, "1"), (301, "3-5-2"), (77, "10-4"), (500, "7"), (129, "2"), (890, "127"), (889, "127"),
+                      (2000, "127-1-64"), (64, "3-5-2"), (350, "5"), (41, "1")]
+        multi = 1500
     shards = []
     for i in range(8):
         shards.append({"kind": "undisturbed", "lengths": lengths[i::8], "cs": seed * 100 + i})
